@@ -584,6 +584,18 @@ def oracle_build(case, R):
             acc |= full[nm]
             R.check(n2p.mkusetmask(nm) == full[nm], "mask_single_vs_dict", nm)
         R.check(n2p.mkusetmask(e) == acc, "mask_plus_is_or", e)
+        # the table handed out belongs to the caller (the docstring itself edits it: "masks['b'] = ..."): whatever is
+        # done to it, the next look-up starts from the documented table again
+        keep = dict(full)
+        nm0 = e.split("+")[0]
+        full[nm0] = 0
+        full["a"] = full.get("a", 0) | full.get("o", 0)
+        full.pop("u6", None)
+        again = n2p.mkusetmask()
+        R.check(again == keep, "mask_table_edited_by_caller_changes_later_calls",
+                f"after editing the returned dict: {sorted(k_ for k_ in keep if again.get(k_) != keep[k_])} differ")
+        R.check(n2p.mkusetmask(e) == acc and n2p.mkusetmask("a") == keep["a"],
+                "mask_lookup_after_caller_edit", e)
         R.nontrivial("+" in e)
         return
     tb = case["table"]
